@@ -198,9 +198,18 @@ def senseFrames (db : Db) (sense : Nat) (lexids : List Nat) : List String :=
       (db.sbsenses.filter (fun x => x.sb == sb.rowid && x.sense == sense)).map (fun _ => sb.frame)
     else [])
 
-/-- `find_syntactic_behaviours(lexicon_rowids)` grouped by (id, frame) -/
+/-- insertion sort of syntactic-behaviour rows by (lexicon rowid, frame string) -/
+def insertSb (a : RSb) : List RSb → List RSb
+  | [] => [a]
+  | b :: t => if a.lex < b.lex || (a.lex == b.lex && a.frame < b.frame) then a :: b :: t else b :: insertSb a t
+
+/-- `find_syntactic_behaviours(lexicon_rowids)` grouped by (id, frame).  With a lexicon filter
+SQLite walks the index of `UNIQUE (lexicon_rowid, frame)`, so frames come out ordered by frame
+string (a planner choice: validated by correspondence, not proved); sense ids of a frame are in
+link insertion order; a frame without linked senses does not appear (inner joins) -/
 def findSbs (db : Db) (lexids : List Nat) : List (Option String × String × List String) :=
-  (db.sbs.filter (fun sb => inLexOrAll lexids sb.lex)).filterMap (fun sb =>
+  let rows := (db.sbs.filter (fun sb => inLexOrAll lexids sb.lex)).foldr insertSb []
+  rows.filterMap (fun sb =>
     let ss := (db.sbsenses.filter (fun x => x.sb == sb.rowid)).filterMap (fun x =>
       (db.senses.find? (fun s => s.rowid == x.sense)).map (·.id))
     if ss.isEmpty then none else some (sb.id, sb.frame, ss))
